@@ -12,6 +12,7 @@ RESOLVE = {"C06", "C07", "C08", "C10"}
 APP = {"C12", "C13", "C14"}
 CONC = {"C20"}
 CFG = {"C15", "C16"}
+DATA = {"C11", "C17", "C18", "C19"}
 
 
 def setup():
@@ -53,6 +54,9 @@ def main():
     if a.prop in CFG:
         import check_cfg
         return check_cfg.run_check(a.prop, a.tier, a.replay)
+    if a.prop in DATA:
+        import check_data
+        return check_data.run_check(a.prop, a.tier, a.replay)
     raise vlib.Infra("no check registered for %r" % a.prop)
 
 
